@@ -86,6 +86,22 @@ fn atoms_str(atoms: &[Atom]) -> String {
 '''
 
 
+# `Atom` variants (src/pattern.rs).  `C11_parse_emits` (Thm/C11Frame.lean): the parser — hence the macro, which runs the same
+# parser at compile time — can emit every variant except Fuzzy, Back, Pir, VTypeName and Check (hand-written patterns only).
+ATOM_VARIANTS = ["Byte", "Save", "Push", "Pop", "Fuzzy", "Skip", "Back", "Rangext", "Many", "Jump1", "Jump4", "Ptr", "Pir", "VTypeName", "Check",
+                 "Aligned", "ReadI8", "ReadU8", "ReadI16", "ReadU16", "ReadI32", "ReadU32", "Zero", "Case", "Break", "Nop"]
+NEVER_EMITTED = ["Fuzzy", "Back", "Pir", "VTypeName", "Check"]
+EMITTED_VARIANTS = [v for v in ATOM_VARIANTS if v not in NEVER_EMITTED]
+
+
+def atom_variants(answer):
+    """the set of `Atom` variant names in a canonical `ok save_len=… atoms=…` answer (the printer of PRINTER / ops_pattern.rs)"""
+    m = re.match(r"ok save_len=\d+ atoms=(\S+)\Z", answer or "")
+    if not m or m.group(1) == "-":
+        return set()
+    return set(re.match(r"[A-Za-z0-9]+", a).group(0) for a in m.group(1).split(",") if re.match(r"[A-Za-z0-9]+", a))
+
+
 # ----------------------------------------------------------------------------------------------
 # literal source texts
 
@@ -429,5 +445,10 @@ def run_batch(items, workdir=None, timeout=600):
             if not errs and not success:
                 violations.append("the crate of rejected invocations failed without located errors: %s %s" % ("; ".join(other)[:500], tail[-500:].replace("\n", " | ")))
     res["skipped"] = len(details["skipped"]) + len(details["skipped_lexical"])
+    # coverage record: which `Atom` variants occur in the constants that were really COMPILED by the proc macro and printed
+    seen = set()
+    for i, g in details["compiled"].items():
+        seen |= atom_variants(g)
+    res["atom_variants"] = sorted(seen)
     res["wall_s"] = round(time.time() - t0, 2)
     return res
